@@ -122,10 +122,10 @@ _CH = "(c{i} == 33 or c{i} == 35 or 37 <= c{i} <= 8215 or 8218 <= c{i} <= 8219 o
 
 def c06_channel(ch: int, n: int, c0: int, c1: int, c2: int) -> bool:
     """
-    pre: (c0 == 33 or c0 == 34 or c0 == 35 or 37 <= c0 <= 8215 or 8218 <= c0 <= 8219 or 8222 <= c0 <= 55295 or 57344 <= c0 <= 65533 or 65536 <= c0 <= 1114111) and c0 != 133 and c0 != 160 and c0 != 5760 and not (8192 <= c0 <= 8202) and c0 != 8232 and c0 != 8233 and c0 != 8239 and c0 != 8287 and c0 != 12288
-    pre: (c1 == 33 or c1 == 34 or c1 == 35 or 37 <= c1 <= 8215 or 8218 <= c1 <= 8219 or 8222 <= c1 <= 55295 or 57344 <= c1 <= 65533 or 65536 <= c1 <= 1114111) and c1 != 133 and c1 != 160 and c1 != 5760 and not (8192 <= c1 <= 8202) and c1 != 8232 and c1 != 8233 and c1 != 8239 and c1 != 8287 and c1 != 12288
-    pre: (c2 == 33 or c2 == 34 or c2 == 35 or 37 <= c2 <= 8215 or 8218 <= c2 <= 8219 or 8222 <= c2 <= 55295 or 57344 <= c2 <= 65533 or 65536 <= c2 <= 1114111) and c2 != 133 and c2 != 160 and c2 != 5760 and not (8192 <= c2 <= 8202) and c2 != 8232 and c2 != 8233 and c2 != 8239 and c2 != 8287 and c2 != 12288
-    post: _ == True
+    vpre: (c0 == 33 or c0 == 34 or c0 == 35 or 37 <= c0 <= 8215 or 8218 <= c0 <= 8219 or 8222 <= c0 <= 55295 or 57344 <= c0 <= 65533 or 65536 <= c0 <= 1114111) and c0 != 133 and c0 != 160 and c0 != 5760 and not (8192 <= c0 <= 8202) and c0 != 8232 and c0 != 8233 and c0 != 8239 and c0 != 8287 and c0 != 12288
+    vpre: (c1 == 33 or c1 == 34 or c1 == 35 or 37 <= c1 <= 8215 or 8218 <= c1 <= 8219 or 8222 <= c1 <= 55295 or 57344 <= c1 <= 65533 or 65536 <= c1 <= 1114111) and c1 != 133 and c1 != 160 and c1 != 5760 and not (8192 <= c1 <= 8202) and c1 != 8232 and c1 != 8233 and c1 != 8239 and c1 != 8287 and c1 != 12288
+    vpre: (c2 == 33 or c2 == 34 or c2 == 35 or 37 <= c2 <= 8215 or 8218 <= c2 <= 8219 or 8222 <= c2 <= 55295 or 57344 <= c2 <= 65533 or 65536 <= c2 <= 1114111) and c2 != 133 and c2 != 160 and c2 != 5760 and not (8192 <= c2 <= 8202) and c2 != 8232 and c2 != 8233 and c2 != 8239 and c2 != 8287 and c2 != 12288
+    vpost: _ == True
     """
     return channel_ok(ch, S(*((c0, c1, c2)[:n])))
 
@@ -160,9 +160,9 @@ specialise(
 
 def c06_with_ref(ch: int, n1: int, n2: int, a0: int, a1: int, b0: int, b1: int) -> bool:
     """
-    pre: (a0 == 33 or a0 == 34 or a0 == 35 or 37 <= a0 <= 126) and (a1 == 33 or a1 == 34 or a1 == 35 or 37 <= a1 <= 126)
-    pre: (b0 == 33 or b0 == 34 or b0 == 35 or 37 <= b0 <= 126) and (b1 == 33 or b1 == 34 or b1 == 35 or 37 <= b1 <= 126)
-    post: _ == True
+    vpre: (a0 == 33 or a0 == 34 or a0 == 35 or 37 <= a0 <= 126) and (a1 == 33 or a1 == 34 or a1 == 35 or 37 <= a1 <= 126)
+    vpre: (b0 == 33 or b0 == 34 or b0 == 35 or 37 <= b0 <= 126) and (b1 == 33 or b1 == 34 or b1 == 35 or 37 <= b1 <= 126)
+    vpost: _ == True
     """
     s1 = S(*((a0, a1)[:n1]))
     s2 = S(*((b0, b1)[:n2]))
